@@ -12,7 +12,9 @@ import (
 	"os"
 	"path/filepath"
 	"reflect"
+	"runtime"
 	"strings"
+	"syscall"
 	"time"
 
 	"github.com/fsnotify/fsnotify"
@@ -187,6 +189,76 @@ func replay(in Input) ReplayOut {
 	return out
 }
 
+// resources: descriptor, inotify watch and goroutine counts after n reconfigurations, and
+// behaviour of a cache created under a real descriptor shortage (RLIMIT_NOFILE).
+type ResourcesOut struct {
+	Cycles     int  `json:"cycles"`
+	Fds        int  `json:"fds"`
+	InotifyFds int  `json:"inotify_fds"`
+	Watches    int  `json:"watches"`
+	Goroutines int  `json:"goroutines"`
+	ShortageOK bool `json:"shortage_cache_answers_current_contents"`
+	ShortageDetail string `json:"shortage_detail"`
+}
+
+func countFds() (fds, inotify, watches int) {
+	ents, _ := os.ReadDir("/proc/self/fd")
+	for _, e := range ents {
+		fds++
+		t, _ := os.Readlink("/proc/self/fd/" + e.Name())
+		if strings.Contains(t, "inotify") {
+			inotify++
+			b, _ := os.ReadFile("/proc/self/fdinfo/" + e.Name())
+			watches += strings.Count(string(b), "inotify wd:")
+		}
+	}
+	return
+}
+
+func resources(in Input) ResourcesOut {
+	root := scratch()
+	defer os.RemoveAll(root)
+	for _, d := range []string{"d0", "d1", "d2"} {
+		_ = os.MkdirAll(filepath.Join(root, d), 0o755)
+	}
+	p := func(ds ...string) []string {
+		var o []string
+		for _, d := range ds {
+			o = append(o, filepath.Join(root, d))
+		}
+		return o
+	}
+	cycles := in.DeadlineMs // reused field: number of cycles
+	cache, _ := cdi.NewCache(cdi.WithSpecDirs(p("d0", "d1")...))
+	for i := 0; i < cycles; i++ {
+		_ = cache.Configure(cdi.WithSpecDirs(p("d1", "d0", "d2")...))
+		_ = os.WriteFile(filepath.Join(root, "d0", "x.json"), fsops.Content("A", "x.json", "m"), 0o644)
+		_ = cache.Configure(cdi.WithAutoRefresh(false))
+		_ = cache.Configure(cdi.WithAutoRefresh(true))
+		_ = cache.Configure(cdi.WithSpecDirs(p("d0", "d1")...))
+		_ = cache.ListDevices()
+	}
+	time.Sleep(300 * time.Millisecond)
+	out := ResourcesOut{Cycles: cycles}
+	out.Fds, out.InotifyFds, out.Watches = countFds()
+	out.Goroutines = runtime.NumGoroutine()
+	_ = cache.Configure(cdi.WithAutoRefresh(false))
+	// real shortage: no descriptor left while the cache is created
+	var lim syscall.Rlimit
+	_ = syscall.Getrlimit(syscall.RLIMIT_NOFILE, &lim)
+	fds, _, _ := countFds()
+	low := lim
+	low.Cur = uint64(fds) // nothing can be opened any more
+	_ = syscall.Setrlimit(syscall.RLIMIT_NOFILE, &low)
+	c2, _ := cdi.NewCache(cdi.WithSpecDirs(p("d2")...))
+	_ = syscall.Setrlimit(syscall.RLIMIT_NOFILE, &lim)
+	_ = os.WriteFile(filepath.Join(root, "d2", "late.json"), fsops.Content("Y", "late.json", "late"), 0o644)
+	devs := c2.ListDevices()
+	out.ShortageOK = len(devs) == 1
+	out.ShortageDetail = fmt.Sprint(devs, " errors: ", c2.GetErrors())
+	return out
+}
+
 func main() {
 	if len(os.Args) != 4 {
 		fmt.Println("usage: c11real events|replay <in.json> <out.json>")
@@ -208,6 +280,8 @@ func main() {
 		res = events(in)
 	case "replay":
 		res = replay(in)
+	case "resources":
+		res = resources(in)
 	}
 	ob, _ := json.Marshal(res)
 	_ = os.WriteFile(os.Args[3], ob, 0o644)
